@@ -235,3 +235,1525 @@ def generate(path):
         '"%s"' % n for n in FUNCS if not info[n]["ok"]))
     L.append("end SV.Gen")
     return "\n".join(L) + "\n", info
+
+
+# =====================================================================================
+# Part 3: the wider subset (loops, table lookups, strings, exceptions)
+# =====================================================================================
+__doc__ += """
+
+Part 3 (same file, class `TrX`, `generate_pure`): a wider subset for the pure arithmetic /
+lookup code
+
+    selfies/grammar_rules.py     get_index_from_selfies, get_selfies_from_index
+    selfies/bond_constraints.py  get_bonding_capacity
+    selfies/mol_graph.py         Atom.bonding_capacity
+    selfies/decoder.py           _read_index_from_selfies
+
+written to Generated/IndexFns.lean, Generated/CapacityFns.lean, Generated/ReadIndexFns.lean.
+The translation is directed by the structure of the AST; nothing is recognised "as a whole".
+
+  values      int -> Int (Nat where non-negative by construction: len(), enumerate counter, range
+              variable), str -> Str, None-able -> Option, list -> List, the generated tables and
+              the constraint dict -> association lists (PyRt.dict*), iterator -> abstract state
+              + `next` function (exhaustion = .error .StopIteration)
+  effects     every operation that can raise (`//`, `%`, divmod, `seq[i]`, `d[k]`, next(),
+              calls of translated functions) is bound with `let t ← …` in evaluation order
+              inside `do` blocks over `Py = Except PyExc`; short-circuit operands keep their
+              effects inside the branch
+  for         `for x in xs / reversed(xs) / enumerate(xs) / range(n)` whose body only rebinds
+              variables that exist before the loop -> `List.foldl` (body cannot raise) or
+              `List.foldlM` over the tuple of those variables; `continue` allowed; `break` adds a
+              flag `py_broke` to that tuple (once set, the remaining iterations do nothing);
+              `return` inside a loop is outside the subset
+  while       `while v:` / `while v != 0:` / `while v > 0:` whose body contains exactly one
+              assignment to v of the form `v //= b`, `v = v // b` or `v, r = divmod(v, b)` with b
+              not assigned in the body -> an auxiliary definition by structural recursion on a
+              fuel argument, called with fuel `v.toNat + 1`; running out of fuel is
+              `.error .NonTermination`.  (Why it suffices is stated in the generated comment and
+              PROVED in Proofs/GenEq2.lean.)
+  try         `try: S1; S… except E: H` where only S1 can raise (the rest of the body must be
+              effect free), so that the handler sees the state at the entry of the `try`
+  mutation    `x.append(e)`, `x.reverse()`, `x += …` rebind x (no aliasing: `a = b` for lists is
+              outside the subset)
+  strings     `+`, `+=`, `"…{}…{:+}…".format(ints/strs)`, f-strings of the same
+  None        `e is None` / `is not None` as the test of `if` / conditional expression ->
+              `match` that refines the type in the non-None branch
+  truthiness  `if n:` on ints and lists; `a or b` on ints / Option ints with Python's value
+              semantics (0 and None are falsy)
+  globals     names imported from selfies.constants that gen_tables.py dumps (INDEX_CODE,
+              INDEX_ALPHABET) refer to the generated constants; a mutable module global
+              (`_current_constraints`) becomes an explicit first parameter
+  methods     `self.attr` (read only) becomes a parameter `self_attr`
+Anything else raises `Unsupported`; the function then gets the hand copy of
+Generated/Fallback.lean and is listed in the group's `translatorFallbacks…` constant.
+"""
+
+import copy
+import os
+import string as _string
+
+EXC_NAMES = ["DecoderError", "EncoderError", "SMILESParserError", "ValueError", "KeyError",
+             "IndexError", "AttributeError", "AssertionError", "RecursionError",
+             "ZeroDivisionError", "TypeError", "StopIteration"]
+
+
+class NeedsMonad(Exception):
+    """an effectful expression turned up while a block was translated in pure mode"""
+
+
+# ---- types ---------------------------------------------------------------------------
+NAT, STR = "Nat", "Str"
+
+
+def Opt(t):
+    return ("Option", t)
+
+
+def Lst(t):
+    return ("List", t)
+
+
+def Dct(k, v):
+    return ("Dict", k, v)
+
+
+def Tup(*ts):
+    return ("Tuple",) + tuple(ts)
+
+
+ITER = ("Iter",)  # an iterator parameter; its items are (Nat, Str) pairs
+ITER_ITEM = Tup(NAT, STR)
+
+
+class TVar:
+    """element type of a list literal `[]`, fixed by the first append"""
+    n = 0
+
+    def __init__(self):
+        TVar.n += 1
+        self.id = TVar.n
+        self.ref = None
+
+
+def resolve(t):
+    while isinstance(t, TVar) and t.ref is not None:
+        t = t.ref
+    if isinstance(t, tuple):
+        return (t[0],) + tuple(resolve(x) for x in t[1:])
+    return t
+
+
+def render(t):
+    t = resolve(t)
+    if isinstance(t, TVar):
+        return "\x02T%d\x02" % t.id
+    if t in (INT, NAT, BOOL, STR):
+        return t
+    if t == OPT:
+        return "(Option Int)"
+    if t[0] == "Option":
+        return "(Option %s)" % render(t[1])
+    if t[0] == "List":
+        return "(List %s)" % render(t[1])
+    if t[0] == "Dict":
+        return "(List (%s × %s))" % (render(t[1]), render(t[2]))
+    if t[0] == "Tuple":
+        return "(" + " × ".join(render(x) for x in t[1:]) + ")"
+    if t[0] == "Iter":
+        return "ι"
+    raise Unsupported("type %r" % (t,))
+
+
+def unify(a, b):
+    a, b = resolve(a), resolve(b)
+    if a is b or a == b:
+        return True
+    if isinstance(a, TVar):
+        a.ref = b
+        return True
+    if isinstance(b, TVar):
+        b.ref = a
+        return True
+    if isinstance(a, tuple) and isinstance(b, tuple) and a[0] == b[0] and len(a) == len(b):
+        return all(unify(x, y) for x, y in zip(a[1:], b[1:]))
+    return False
+
+
+def norm(t):
+    """the old translator's 'Option Int' string and the new ('Option', 'Int') are the same type"""
+    t = resolve(t)
+    if t == OPT:
+        return Opt(INT)
+    return t
+
+
+def proj(text, i, n):
+    """component i of an n-tuple (right nested pairs)"""
+    if n == 1:
+        return text
+    s = text + ".2" * i
+    return s + (".1" if i < n - 1 else "")
+
+
+def lean_char(c):
+    o = ord(c)
+    if c == "\\":
+        return "'\\\\'"
+    if c == "'":
+        return "'\\''"
+    if 32 <= o < 127:
+        return "'%s'" % c
+    return "(Char.ofNat %d)" % o
+
+
+def lean_str(s):
+    return "([" + ", ".join(lean_char(c) for c in s) + "] : Str)"
+
+
+# ---- what the translator knows about the modules -------------------------------------
+# names of selfies.constants that gen_tables.py dumps into Generated/Tables.lean
+CONSTANT_TABLES = {
+    "INDEX_CODE": ("indexCode", Dct(STR, NAT)),
+    "INDEX_ALPHABET": ("indexAlphabet", Lst(STR)),
+}
+
+SPECS = [
+    dict(name="get_index_from_selfies", file="selfies/grammar_rules.py", group="IndexFns",
+         params=[], vararg=("symbols", Lst(Opt(STR)))),
+    dict(name="get_selfies_from_index", file="selfies/grammar_rules.py", group="IndexFns",
+         params=[("index", INT)]),
+    dict(name="get_bonding_capacity", file="selfies/bond_constraints.py", group="CapacityFns",
+         params=[("element", STR), ("charge", INT)],
+         globals=[("_current_constraints", Dct(STR, NAT))]),
+    dict(name="bonding_capacity", cls="Atom", lean="Atom_bonding_capacity",
+         file="selfies/mol_graph.py", group="CapacityFns", params=[],
+         self_attrs=[("element", STR), ("charge", INT), ("h_count", Opt(INT))]),
+    dict(name="_read_index_from_selfies", lean="read_index_from_selfies",
+         file="selfies/decoder.py", group="ReadIndexFns",
+         params=[("symbol_iter", ITER), ("n_symbols", INT)]),
+]
+MODULE_OF_FILE = {"selfies/grammar_rules.py": "selfies.grammar_rules",
+                  "selfies/bond_constraints.py": "selfies.bond_constraints",
+                  "selfies/mol_graph.py": "selfies.mol_graph",
+                  "selfies/decoder.py": "selfies.decoder"}
+GROUPS = {
+    "IndexFns": dict(imports=["SelfiesVerif.Generated.Tables"], fallbacks="translatorFallbacksIndex"),
+    "CapacityFns": dict(imports=[], fallbacks="translatorFallbacksCapacity"),
+    "ReadIndexFns": dict(imports=["SelfiesVerif.Generated.IndexFns"], fallbacks="translatorFallbacksReadIndex"),
+}
+LEAN_RESERVED = set("""
+at by do else end export extends for from fun have if import in instance let match mut namespace notation
+open show structure then theorem where with universe variable axiom def deriving example macro syntax
+private protected section set_option local return try catch finally unless break continue nomatch nofun
+suffices calc using abbrev class inductive mutual opaque partial unsafe noncomputable termination_by
+decreasing_by attribute omit include infix infixl infixr prefix postfix initialize this
+some none min max decide true false not pure bind List Int Nat Option Except PyExc PyRt Str Py Bool Char
+String Type Prop Sort fmtPlus intToStr lookup getIdx getKey indexCode indexAlphabet ι
+""".split())
+ALLOWED_DECORATORS = {"functools.lru_cache()", "functools.lru_cache", "lru_cache()", "lru_cache",
+                      "property", "functools.cache", "cache"}
+
+
+def lean_name(spec):
+    return spec.get("lean", spec["name"])
+
+
+class ModuleInfo:
+    def __init__(self, path, modname):
+        with open(path, encoding="utf-8") as f:
+            self.tree = ast.parse(f.read())
+        self.modname = modname
+        self.imported = {}      # local name -> (module, original name)
+        self.assigned = set()   # names (re)bound at module level
+        self.defs = {}
+        self.classes = {}
+        for n in self.tree.body:
+            if isinstance(n, ast.ImportFrom):
+                for a in n.names:
+                    self.imported[a.asname or a.name] = (n.module, a.name)
+            elif isinstance(n, ast.FunctionDef):
+                self.defs[n.name] = n
+            elif isinstance(n, ast.ClassDef):
+                self.classes[n.name] = {m.name: m for m in n.body if isinstance(m, ast.FunctionDef)}
+            else:
+                for x in ast.walk(n):
+                    if isinstance(x, ast.Name) and isinstance(x.ctx, ast.Store):
+                        self.assigned.add(x.id)
+
+
+def assigned_names(stmts):
+    """names bound anywhere in the statements (assignment, augmented assignment, loop targets,
+    mutating method calls `x.append(..)`, `x.reverse()`, and `next(x)`)"""
+    out = []
+
+    def add(n):
+        if n not in out:
+            out.append(n)
+    for s in stmts:
+        for x in ast.walk(s):
+            if isinstance(x, ast.Name) and isinstance(x.ctx, ast.Store):
+                add(x.id)
+            elif isinstance(x, ast.Call) and isinstance(x.func, ast.Attribute) \
+                    and isinstance(x.func.value, ast.Name) and x.func.attr in MUTATORS:
+                add(x.func.value.id)
+            elif isinstance(x, ast.Call) and isinstance(x.func, ast.Name) and x.func.id == "next" \
+                    and x.args and isinstance(x.args[0], ast.Name):
+                add(x.args[0].id)
+    return out
+
+
+MUTATORS = ("append", "reverse", "extend", "insert", "pop", "remove", "clear", "sort", "update",
+            "add", "discard", "setdefault", "popitem")
+
+
+def used_names(nodes):
+    out = set()
+    for s in nodes:
+        for x in ast.walk(s):
+            if isinstance(x, ast.Name):
+                out.add(x.id)
+    return out
+
+
+TYPE_RANK = {INT: 0, NAT: 1, BOOL: 2, STR: 3}
+
+
+def type_rank(t):
+    t = norm(t)
+    if isinstance(t, str):
+        return TYPE_RANK.get(t, 4)
+    return {"Option": 5, "Tuple": 6, "List": 7, "Dict": 8, "Iter": 9}.get(t[0], 10)
+
+
+class TrX:
+    """one function of the wider subset"""
+
+    def __init__(self, spec, mod, registry):
+        self.spec = spec
+        self.mod = mod
+        self.registry = registry       # python name -> (spec, signature info) of translated callees
+        self.fname = lean_name(spec)
+        self.pending = []              # hoisted effects of the expression being translated
+        self.pure_only = False
+        self.ntmp = 0
+        self.nloop = 0
+        self.aux = []                  # auxiliary definitions (while loops)
+        self.globals_used = []         # (name, type) of module globals that became parameters
+        self.rets = []                 # return types seen
+        self.iter_params = [p for p, t in spec.get("params", []) if t == ITER]
+        self.tables_used = set()
+        self.prefix = "t"
+
+    # ---- helpers
+    def tmp(self):
+        self.ntmp += 1
+        return "%s_%d" % (self.prefix, self.ntmp)
+
+    def effect(self, text, ty):
+        """bind the result of a computation that can raise; returns the name of the result"""
+        if self.pure_only:
+            raise NeedsMonad()
+        t = self.tmp()
+        self.pending.append(("bind", t, text, ty))
+        return t
+
+    def flush(self, pad):
+        out = []
+        for kind, name, text, ty in self.pending:
+            if kind == "bind":
+                out.append("%slet %s ← %s\n" % (pad, name, text))
+            else:
+                out.append("%slet %s : %s := %s\n" % (pad, name, render(ty), text))
+        self.pending = []
+        return "".join(out)
+
+    def isolated(self, f):
+        """run f() collecting its effects separately: returns (pending, result)"""
+        saved = self.pending
+        self.pending = []
+        try:
+            r = f()
+            return self.pending, r
+        finally:
+            self.pending = saved
+
+    def as_int(self, t, ty):
+        ty = norm(ty)
+        if ty == INT:
+            return t
+        if ty == NAT:
+            return "((%s : Nat) : Int)" % t
+        raise Unsupported("type %s where an int is expected" % render(ty))
+
+    def as_key(self, t, ty):
+        ty = norm(ty)
+        if ty == STR:
+            return "(some %s)" % t
+        if ty == Opt(STR):
+            return t
+        if ty == NONE:
+            return "(none : Option Str)"
+        raise Unsupported("dict key of type %s" % render(ty))
+
+    def truth(self, t, ty):
+        ty = norm(ty)
+        if ty == BOOL:
+            return t
+        if ty in (INT, NAT):
+            return "(decide (%s ≠ 0))" % t
+        if isinstance(ty, tuple) and ty[0] == "List" or ty == STR:
+            return "(!(List.isEmpty %s))" % t
+        raise Unsupported("truth value of %s" % render(ty))
+
+    def lookup_name(self, name, env):
+        if name in env:
+            return name, env[name]
+        # a table of selfies.constants, imported under its own name and never rebound
+        if name in CONSTANT_TABLES and self.mod.imported.get(name) == ("selfies.constants", name) \
+                and name not in self.mod.assigned:
+            self.tables_used.add(name)
+            return CONSTANT_TABLES[name]
+        for g, ty in self.spec.get("globals", []):
+            if g == name:
+                if (g, ty) not in self.globals_used:
+                    self.globals_used.append((g, ty))
+                return g, ty
+        raise Unsupported("unknown name %s" % name)
+
+    # ---- expressions: (lean text, type); effects go to self.pending
+    def expr(self, e, env):
+        if isinstance(e, ast.Constant):
+            if e.value is None:
+                return "none", NONE
+            if isinstance(e.value, bool):
+                return ("true" if e.value else "false"), BOOL
+            if isinstance(e.value, int):
+                return ("(%d : Int)" % e.value if e.value >= 0 else "(-%d : Int)" % -e.value), INT
+            if isinstance(e.value, str):
+                return lean_str(e.value), STR
+            raise Unsupported("constant %r" % (e.value,))
+        if isinstance(e, ast.Name):
+            return self.lookup_name(e.id, env)
+        if isinstance(e, ast.Attribute):
+            if isinstance(e.value, ast.Name) and e.value.id == "self" and "self" not in env:
+                for a, ty in self.spec.get("self_attrs", []):
+                    if a == e.attr:
+                        n = "self_" + a
+                        return n, env.get(n, ty)
+            raise Unsupported("attribute %s" % e.attr)
+        if isinstance(e, ast.UnaryOp):
+            t, ty = self.expr(e.operand, env)
+            if isinstance(e.op, ast.USub):
+                return "(-%s)" % self.as_int(t, ty), INT
+            if isinstance(e.op, ast.Not):
+                return "(!%s)" % self.truth(t, ty), BOOL
+            raise Unsupported("unary op")
+        if isinstance(e, ast.BinOp):
+            return self.binop(e.op, e.left, e.right, env)
+        if isinstance(e, ast.Compare):
+            return self.compare(e, env)
+        if isinstance(e, ast.BoolOp):
+            return self.boolop(e, env)
+        if isinstance(e, ast.IfExp):
+            return self.ifexp(e, env)
+        if isinstance(e, ast.Call):
+            return self.call(e, env)
+        if isinstance(e, ast.Subscript):
+            return self.subscript(e, env)
+        if isinstance(e, ast.List):
+            parts = [self.expr(x, env) for x in e.elts]
+            if not parts:
+                return "[]", Lst(TVar())
+            ty = parts[0][1]
+            for _, t2 in parts[1:]:
+                if not unify(ty, t2):
+                    raise Unsupported("list of mixed types")
+            return "[" + ", ".join(p[0] for p in parts) + "]", Lst(ty)
+        if isinstance(e, ast.Tuple):
+            parts = [self.expr(x, env) for x in e.elts]
+            return "(" + ", ".join(p[0] for p in parts) + ")", Tup(*[p[1] for p in parts])
+        if isinstance(e, ast.JoinedStr):
+            return self.fstring(e, env)
+        raise Unsupported("expression %s" % type(e).__name__)
+
+    def binop(self, op, left, right, env):
+        a, ta = self.expr(left, env)
+        if isinstance(op, ast.Pow):
+            # the exponent must be non-negative by construction (a negative one gives a float)
+            if isinstance(right, ast.Constant) and isinstance(right.value, int) \
+                    and not isinstance(right.value, bool) and right.value >= 0:
+                return "(%s ^ (%d : Nat))" % (self.as_int(a, ta), right.value), INT
+            b, tb = self.expr(right, env)
+            if norm(tb) != NAT:
+                raise Unsupported("** with an exponent that is not known to be non-negative")
+            return "(%s ^ %s)" % (self.as_int(a, ta), b), INT
+        if isinstance(op, ast.Add) and isinstance(norm(ta), tuple) and norm(ta)[0] == "List" \
+                and isinstance(right, ast.List) and isinstance(left, ast.Name):
+            # `xs + [e, …]`: the elements are coerced to the element type of xs (None-able lists)
+            want = norm(ta)[1]
+            if left.id in self.nullable_lists and isinstance(resolve(want), TVar):
+                unify(want, Opt(TVar()))
+            items = []
+            for x in right.elts:
+                t, ty = self.expr(x, env)
+                w = resolve(want)
+                if isinstance(w, TVar):
+                    unify(w, ty if norm(ty) != NONE else Opt(TVar()))
+                items.append(self.coerce(t, ty, resolve(want)))
+            return "(%s ++ [%s])" % (a, ", ".join(items)), norm(ta)
+        b, tb = self.expr(right, env)
+        ta, tb = norm(ta), norm(tb)
+        if isinstance(op, ast.Add) and ta == STR and tb == STR:
+            return "(%s ++ %s)" % (a, b), STR
+        if isinstance(op, ast.Add) and isinstance(ta, tuple) and ta[0] == "List" and unify(ta, tb):
+            return "(%s ++ %s)" % (a, b), ta
+        ops = {ast.Add: "+", ast.Sub: "-", ast.Mult: "*"}
+        if type(op) in ops:
+            return "(%s %s %s)" % (self.as_int(a, ta), ops[type(op)], self.as_int(b, tb)), INT
+        if isinstance(op, ast.FloorDiv):
+            return self.effect("PyRt.floorDiv %s %s" % (self.as_int(a, ta), self.as_int(b, tb)), INT), INT
+        if isinstance(op, ast.Mod) and ta != STR:
+            return self.effect("PyRt.mod %s %s" % (self.as_int(a, ta), self.as_int(b, tb)), INT), INT
+        raise Unsupported("binary op %s" % type(op).__name__)
+
+    def compare(self, e, env):
+        syms = {ast.Eq: "=", ast.NotEq: "≠", ast.Lt: "<", ast.LtE: "≤", ast.Gt: ">", ast.GtE: "≥"}
+        left = e.left
+        parts = []
+        lt = self.expr(left, env)
+        for k, (op, right) in enumerate(zip(e.ops, e.comparators)):
+            # operands after the second are only evaluated if the chain is still true
+            if k >= 1:
+                pend, rt = self.isolated(lambda: self.expr(right, env))
+                if pend:
+                    raise Unsupported("effect in a chained comparison")
+            else:
+                rt = self.expr(right, env)
+            (a, ta), (b, tb) = lt, rt
+            ta, tb = norm(ta), norm(tb)
+            if isinstance(op, (ast.Is, ast.IsNot)):
+                if not (isinstance(right, ast.Constant) and right.value is None):
+                    raise Unsupported("is")
+                if isinstance(ta, tuple) and ta[0] == "Option":
+                    parts.append("(Option.%s %s)" % ("isNone" if isinstance(op, ast.Is) else "isSome", a))
+                elif ta == NONE:
+                    parts.append("true" if isinstance(op, ast.Is) else "false")
+                else:
+                    parts.append("false" if isinstance(op, ast.Is) else "true")
+            elif isinstance(op, (ast.In, ast.NotIn)):
+                if isinstance(tb, tuple) and tb[0] == "Dict":
+                    t = "(PyRt.dictHas %s %s)" % (b, self.as_key(a, ta))
+                elif isinstance(tb, tuple) and tb[0] == "List" and norm(tb[1]) == ta and ta in (STR, INT):
+                    t = "(List.elem %s %s)" % (a, b)
+                else:
+                    raise Unsupported("in")
+                parts.append(t if isinstance(op, ast.In) else "(!%s)" % t)
+            elif type(op) in syms:
+                if ta == STR and tb == STR and isinstance(op, (ast.Eq, ast.NotEq)):
+                    parts.append("(decide (%s %s %s))" % (a, syms[type(op)], b))
+                else:
+                    parts.append("(decide (%s %s %s))" % (self.as_int(a, ta), syms[type(op)], self.as_int(b, tb)))
+            else:
+                raise Unsupported("compare op")
+            lt = rt
+        return "(" + " && ".join(parts) + ")", BOOL
+
+    def branches(self, cases, env_of=None):
+        """cases: list of (head text, thunk) where thunk() -> (text, type).  Builds one
+        expression out of alternatives that are evaluated conditionally.  Returns
+        (list of (head, text), type, monadic?)"""
+        done = []
+        ty = None
+        monadic = False
+        for head, thunk in cases:
+            pend, (t, tt) = self.isolated(thunk)
+            if pend:
+                monadic = True
+            done.append((head, pend, t, tt))
+        # join the types: equal, or Int / None -> Option Int
+        tys = [norm(d[3]) for d in done]
+        if all(unify(tys[0], t) for t in tys[1:]):
+            ty = tys[0]
+            conv = [lambda t, tt: t] * len(done)
+        elif all(t in (INT, NAT, NONE, Opt(INT)) for t in tys):
+            ty = Opt(INT)
+            conv = [lambda t, tt: self.to_opt_int(t, tt)] * len(done)
+        else:
+            raise Unsupported("alternatives of different types")
+        if ty == NONE:
+            ty = Opt(INT)
+            conv = [lambda t, tt: self.to_opt_int(t, tt)] * len(done)
+        out = []
+        for (head, pend, t, tt), c in zip(done, conv):
+            t = c(t, tt)
+            if monadic:
+                if self.pure_only:
+                    raise NeedsMonad()
+                binds = "".join("let %s ← %s; " % (p[1], p[2]) if p[0] == "bind"
+                                else "let %s : %s := %s; " % (p[1], render(p[3]), p[2]) for p in pend)
+                t = "(do %sExcept.ok %s)" % (binds, t) if pend else "(Except.ok %s)" % t
+            out.append((head, t))
+        return out, ty, monadic
+
+    def to_opt_int(self, t, ty):
+        ty = norm(ty)
+        if ty == NONE:
+            return "(none : Option Int)"
+        if ty in (INT, NAT):
+            return "(some %s)" % self.as_int(t, ty)
+        if ty == Opt(INT):
+            return t
+        raise Unsupported("cannot make Option Int of %s" % render(ty))
+
+    def none_test(self, test, env):
+        """`X is None` / `X is not None` on a variable of Option type -> (X text, name, inner
+        type, positive?) else None"""
+        if isinstance(test, ast.Compare) and len(test.ops) == 1 and isinstance(test.ops[0], (ast.Is, ast.IsNot)) \
+                and isinstance(test.comparators[0], ast.Constant) and test.comparators[0].value is None \
+                and isinstance(test.left, (ast.Name, ast.Attribute)):
+            t, ty = self.expr(test.left, env)
+            ty = norm(ty)
+            if isinstance(ty, tuple) and ty[0] == "Option":
+                return t, ty[1], isinstance(test.ops[0], ast.Is)
+        return None
+
+    def finish_alternatives(self, fmt, alts, ty, monadic):
+        text = fmt % tuple(t for _, t in alts)
+        if monadic:
+            return self.effect(text, ty), ty
+        return text, ty
+
+    def ifexp(self, e, env):
+        nt = self.none_test(e.test, env)
+        if nt is not None:
+            x, inner, is_none = nt
+            env2 = dict(env)
+            env2[x] = inner
+            on_none, on_some = (e.body, e.orelse) if is_none else (e.orelse, e.body)
+            alts, ty, mon = self.branches([("none", lambda: self.expr(on_none, env)),
+                                           ("some", lambda: self.expr(on_some, env2))])
+            return self.finish_alternatives("(match %s with | none => %%s | some %s => %%s)" % (x, x), alts, ty, mon)
+        c, tc = self.expr(e.test, env)
+        c = self.truth(c, tc)
+        alts, ty, mon = self.branches([("then", lambda: self.expr(e.body, env)),
+                                       ("else", lambda: self.expr(e.orelse, env))])
+        return self.finish_alternatives("(if %s then %%s else %%s)" % c, alts, ty, mon)
+
+    def boolop(self, e, env):
+        first, tf = self.expr(e.values[0], env)
+        tf = norm(tf)
+        if tf == BOOL:
+            # logical use; later operands must be effect free Bool expressions
+            parts = [first]
+            for v in e.values[1:]:
+                pend, (t, ty) = self.isolated(lambda: self.expr(v, env))
+                if pend:
+                    raise Unsupported("effect in a short-circuit operand of and/or on Bool")
+                parts.append(self.truth(t, ty) if norm(ty) == BOOL else self.need_bool(ty))
+            op = "&&" if isinstance(e.op, ast.And) else "||"
+            return "(" + (" %s " % op).join(parts) + ")", BOOL
+        # value semantics: `a or b` is a if a is truthy else b ; `a and b` is b if a is truthy else a
+        if not isinstance(e.op, ast.Or):
+            raise Unsupported("`and` on non-Bool values")
+        rest = e.values[1:]
+        rest_e = rest[0] if len(rest) == 1 else ast.BoolOp(op=ast.Or(), values=rest)
+        if tf in (INT, NAT):
+            a = self.as_int(first, tf)
+            alts, ty, mon = self.branches([("t", lambda: (a, INT)), ("f", lambda: self.expr(rest_e, env))])
+            if norm(ty) != INT:
+                raise Unsupported("`or` of different types")
+            return self.finish_alternatives("(if (decide (%s ≠ 0)) then %%s else %%s)" % a, alts, ty, mon)
+        if tf == Opt(INT):
+            v = self.tmp()
+            alts, ty, mon = self.branches([("t", lambda: (v, INT)), ("f", lambda: self.expr(rest_e, env)),
+                                           ("n", lambda: self.expr(rest_e, env))])
+            if norm(ty) != INT:
+                raise Unsupported("`or` of different types")
+            return self.finish_alternatives(
+                "(match %s with | some %s => (if (decide (%s ≠ 0)) then %%s else %%s) | none => %%s)" % (first, v, v),
+                alts, ty, mon)
+        raise Unsupported("`or` on values of type %s" % render(tf))
+
+    def need_bool(self, ty):
+        raise Unsupported("type %s where Bool expected" % render(ty))
+
+    def format_pieces(self, fmt, args, env):
+        """"…{}…{:+}…".format(args) -> concatenation"""
+        pieces = []
+        auto = 0
+        for lit, field, spec, conv in _string.Formatter().parse(fmt):
+            if lit:
+                pieces.append(lean_str(lit))
+            if field is None:
+                continue
+            if conv is not None:
+                raise Unsupported("format conversion")
+            if field == "":
+                idx = auto
+                auto += 1
+            elif field.isdigit():
+                idx = int(field)
+            else:
+                raise Unsupported("format field %r" % field)
+            if idx >= len(args):
+                raise Unsupported("format arity")
+            pieces.append(self.format_value(args[idx], spec or "", env))
+        return pieces
+
+    def format_value(self, node, spec, env):
+        t, ty = self.expr(node, env)
+        ty = norm(ty)
+        if ty in (INT, NAT) and spec in ("", "d"):
+            return "(intToStr %s)" % self.as_int(t, ty)
+        if ty in (INT, NAT) and spec in ("+", "+d"):
+            return "(fmtPlus %s)" % self.as_int(t, ty)
+        if ty == STR and spec in ("", "s"):
+            return t
+        raise Unsupported("format spec %r on %s" % (spec, render(ty)))
+
+    def concat(self, pieces):
+        if not pieces:
+            return lean_str(""), STR
+        acc = pieces[0]
+        for p in pieces[1:]:
+            acc = "(%s ++ %s)" % (acc, p)
+        return acc, STR
+
+    def fstring(self, e, env):
+        pieces = []
+        for v in e.values:
+            if isinstance(v, ast.Constant) and isinstance(v.value, str):
+                pieces.append(lean_str(v.value))
+            elif isinstance(v, ast.FormattedValue):
+                if v.conversion != -1:
+                    raise Unsupported("f-string conversion")
+                spec = ""
+                if v.format_spec is not None:
+                    if not (len(v.format_spec.values) == 1 and isinstance(v.format_spec.values[0], ast.Constant)):
+                        raise Unsupported("f-string format spec")
+                    spec = v.format_spec.values[0].value
+                pieces.append(self.format_value(v.value, spec, env))
+            else:
+                raise Unsupported("f-string part")
+        return self.concat(pieces)
+
+    def call(self, e, env):
+        f = e.func
+        if e.keywords:
+            raise Unsupported("keyword arguments")
+        if isinstance(f, ast.Name) and f.id not in env:
+            if f.id in ("min", "max") and len(e.args) >= 2:
+                parts = []
+                for a in e.args:
+                    t, ty = self.expr(a, env)
+                    parts.append(self.as_int(t, ty))
+                acc = parts[0]
+                for p in parts[1:]:
+                    acc = "(%s %s %s)" % (f.id, acc, p)
+                return acc, INT
+            if f.id == "len" and len(e.args) == 1:
+                t, ty = self.expr(e.args[0], env)
+                ty = norm(ty)
+                if ty == STR or (isinstance(ty, tuple) and ty[0] in ("List", "Dict")):
+                    return "(List.length %s)" % t, NAT
+                raise Unsupported("len of %s" % render(ty))
+            if f.id == "divmod" and len(e.args) == 2:
+                a, ta = self.expr(e.args[0], env)
+                b, tb = self.expr(e.args[1], env)
+                return self.effect("PyRt.divmod %s %s" % (self.as_int(a, ta), self.as_int(b, tb)),
+                                   Tup(INT, INT)), Tup(INT, INT)
+            if f.id == "next" and len(e.args) == 1 and isinstance(e.args[0], ast.Name) \
+                    and norm(env.get(e.args[0].id)) == ITER:
+                it = e.args[0].id
+                r = self.effect("py_next %s" % it, Tup(ITER_ITEM, ITER))
+                self.pending.append(("let", it, "%s.2" % r, ITER))
+                return "%s.1" % r, ITER_ITEM
+            if f.id in self.registry:
+                return self.call_translated(f.id, e, env)
+            raise Unsupported("call of %s" % f.id)
+        if isinstance(f, ast.Attribute):
+            if isinstance(f.value, ast.Constant) and isinstance(f.value.value, str) and f.attr == "format":
+                if any(isinstance(a, ast.Starred) for a in e.args):
+                    raise Unsupported("format(*args)")
+                return self.concat(self.format_pieces(f.value.value, e.args, env))
+            if f.attr == "get" and len(e.args) in (1, 2):
+                d, td = self.expr(f.value, env)
+                td = norm(td)
+                if isinstance(td, tuple) and td[0] == "Dict":
+                    k, tk = self.expr(e.args[0], env)
+                    key = self.as_key(k, tk)
+                    if len(e.args) == 1:
+                        return "(PyRt.dictGet? %s %s)" % (d, key), Opt(INT)
+                    dv, tdv = self.expr(e.args[1], env)
+                    if norm(tdv) == NONE:
+                        return "(PyRt.dictGet? %s %s)" % (d, key), Opt(INT)
+                    return "(PyRt.dictGetD %s %s %s)" % (d, key, self.as_int(dv, tdv)), INT
+            raise Unsupported("method %s" % f.attr)
+        raise Unsupported("call")
+
+    def call_translated(self, name, e, env):
+        # the name must denote the translated function: defined at module level here, or imported
+        callee, sig = self.registry[name]
+        here = MODULE_OF_FILE[self.spec["file"]]
+        there = MODULE_OF_FILE[callee["file"]]
+        ok = (here == there and name in self.mod.defs) or self.mod.imported.get(name) == (there, name)
+        if not ok or name in self.mod.assigned:
+            raise Unsupported("call of %s (not the translated function)" % name)
+        args = []
+        for g, ty in sig["globals"]:
+            if (g, ty) not in self.globals_used:
+                self.globals_used.append((g, ty))
+            args.append(g)
+        params = list(callee.get("params", []))
+        if callee.get("vararg"):
+            if not (len(e.args) == 1 and isinstance(e.args[0], ast.Starred)):
+                # explicit positional arguments make the vararg list
+                parts = [self.expr(a, env) for a in e.args]
+                want = callee["vararg"][1][1]
+                items = [self.coerce(t, ty, want) for t, ty in parts]
+                args.append("[" + ", ".join(items) + "]")
+            else:
+                t, ty = self.expr(e.args[0].value, env)
+                ty = norm(ty)
+                want = callee["vararg"][1]
+                if isinstance(ty, tuple) and ty[0] == "List" and isinstance(norm(want[1]), tuple) \
+                        and norm(want[1])[0] == "Option" and not isinstance(resolve(ty[1]), TVar) \
+                        and norm(ty[1]) == norm(want[1][1]):
+                    t = "(List.map some %s)" % t     # a list without None where None is allowed
+                elif not unify(ty, want):
+                    raise Unsupported("argument type %s for *%s" % (render(ty), callee["vararg"][0]))
+                args.append(t)
+        else:
+            if len(e.args) != len(params) or any(isinstance(a, ast.Starred) for a in e.args):
+                raise Unsupported("arity of call to %s" % name)
+            for a, (p, want) in zip(e.args, params):
+                t, ty = self.expr(a, env)
+                args.append(self.coerce(t, ty, want))
+        if sig.get("iter_params"):
+            raise Unsupported("call of a function that advances an iterator")
+        r = self.effect("%s %s" % (lean_name(callee), " ".join(args)), sig["ret"])
+        return r, sig["ret"]
+
+    def coerce(self, t, ty, want):
+        ty, want = norm(ty), norm(want)
+        if unify(ty, want):
+            return t
+        if want == INT and ty == NAT:
+            return self.as_int(t, ty)
+        if isinstance(want, tuple) and want[0] == "Option":
+            if ty == NONE:
+                return "(none : %s)" % render(want)
+            if unify(ty, want[1]):
+                return "(some %s)" % t
+            if want[1] == INT and ty == NAT:
+                return "(some %s)" % self.as_int(t, ty)
+        raise Unsupported("value of type %s where %s expected" % (render(ty), render(want)))
+
+    def subscript(self, e, env):
+        v, tv = self.expr(e.value, env)
+        tv = norm(tv)
+        s = e.slice
+        if isinstance(s, ast.Slice):
+            if s.lower is None and s.upper is None and isinstance(s.step, ast.UnaryOp) \
+                    and isinstance(s.step.op, ast.USub) and isinstance(s.step.operand, ast.Constant) \
+                    and s.step.operand.value == 1 and (tv == STR or (isinstance(tv, tuple) and tv[0] == "List")):
+                return "(List.reverse %s)" % v, tv
+            raise Unsupported("slice")
+        if isinstance(tv, tuple) and tv[0] == "Tuple":
+            n = len(tv) - 1
+            k = None
+            if isinstance(s, ast.Constant) and isinstance(s.value, int):
+                k = s.value
+            elif isinstance(s, ast.UnaryOp) and isinstance(s.op, ast.USub) and isinstance(s.operand, ast.Constant) \
+                    and isinstance(s.operand.value, int):
+                k = -s.operand.value
+            if k is None or not (-n <= k < n):
+                raise Unsupported("tuple index")
+            k %= n
+            return proj(v, k, n), tv[1 + k]
+        i, ti = self.expr(s, env)
+        if isinstance(tv, tuple) and tv[0] == "Dict":
+            return self.effect("PyRt.dictItem %s %s" % (v, self.as_key(i, ti)), INT), INT
+        if isinstance(tv, tuple) and tv[0] == "List":
+            return self.effect("PyRt.index %s %s" % (v, self.as_int(i, ti)), tv[1]), tv[1]
+        raise Unsupported("subscript of %s" % render(tv))
+
+    # ---- statements --------------------------------------------------------------------
+    # k: what happens when control falls off the end of the block:
+    #    None            -> function level: error
+    #    ("yield", f)    -> f(env) gives the text of the value that the loop body yields
+    def simple(self, s, env):
+        """assignment-like statements.  Returns (lines after the effects, env') or None"""
+        if isinstance(s, ast.Assign):
+            if len(s.targets) != 1:
+                raise Unsupported("chained assignment")
+            tg = s.targets[0]
+            if isinstance(s.value, ast.Name) and isinstance(norm(env.get(s.value.id, INT)), tuple) \
+                    and norm(env[s.value.id])[0] in ("List", "Dict", "Iter"):
+                raise Unsupported("aliasing of a mutable value")
+            t, ty = self.expr(s.value, env)
+            return self.store(tg, t, ty, env)
+        if isinstance(s, ast.AugAssign):
+            if not isinstance(s.target, ast.Name):
+                raise Unsupported("augmented assignment target")
+            load = ast.Name(id=s.target.id, ctx=ast.Load())
+            t, ty = self.binop(s.op, load, s.value, env)
+            return self.store(s.target, t, ty, env)
+        if isinstance(s, ast.Expr) and isinstance(s.value, ast.Call) and isinstance(s.value.func, ast.Attribute) \
+                and isinstance(s.value.func.value, ast.Name) and s.value.func.value.id in env:
+            x = s.value.func.value.id
+            tx = norm(env[x])
+            m = s.value.func.attr
+            if isinstance(tx, tuple) and tx[0] == "List" and not s.value.keywords:
+                if m == "append" and len(s.value.args) == 1:
+                    t, ty = self.expr(s.value.args[0], env)
+                    want = tx[1]
+                    if x in self.nullable_lists and isinstance(resolve(want), TVar):
+                        unify(want, Opt(TVar()))
+                    want = resolve(want)
+                    if isinstance(want, TVar):
+                        unify(want, ty if norm(ty) != NONE else Opt(TVar()))
+                    item = self.coerce(t, ty, want)
+                    return ["let %s : %s := (%s ++ [%s])" % (x, render(tx), x, item)], env
+                if m == "reverse" and not s.value.args:
+                    return ["let %s : %s := (List.reverse %s)" % (x, render(tx), x)], env
+            raise Unsupported("method statement %s" % m)
+        return None
+
+    def store(self, tg, t, ty, env):
+        if isinstance(tg, ast.Name):
+            if norm(ty) == NONE:
+                t, ty = "(none : Option Int)", Opt(INT)
+            if tg.id in self.frozen:
+                raise Unsupported("assignment to %s" % tg.id)
+            env2 = dict(env)
+            env2[tg.id] = ty
+            return ["let %s : %s := %s" % (tg.id, render(ty), t)], env2
+        if isinstance(tg, ast.Tuple) and all(isinstance(x, ast.Name) for x in tg.elts):
+            ty = norm(ty)
+            if not (isinstance(ty, tuple) and ty[0] == "Tuple" and len(ty) - 1 == len(tg.elts)):
+                raise Unsupported("tuple assignment from %s" % render(ty))
+            n = len(tg.elts)
+            tmp = self.tmp()
+            lines = ["let %s : %s := %s" % (tmp, render(ty), t)]
+            env2 = dict(env)
+            for i, x in enumerate(tg.elts):
+                if x.id in self.frozen:
+                    raise Unsupported("assignment to %s" % x.id)
+                lines.append("let %s : %s := %s" % (x.id, render(ty[1 + i]), proj(tmp, i, n)))
+                env2[x.id] = ty[1 + i]
+            return lines, env2
+        raise Unsupported("assignment target")
+
+    def block(self, stmts, env, indent, k):
+        pad = "  " * indent
+        stmts = list(stmts)
+        if not stmts:
+            if k is None:
+                raise Unsupported("fell off the end without return")
+            return pad + k[1](env)
+        s, tail = stmts[0], stmts[1:]
+        if isinstance(s, ast.Expr) and isinstance(s.value, ast.Constant) and isinstance(s.value.value, str):
+            return self.block(tail, env, indent, k)
+        if isinstance(s, ast.Pass):
+            return self.block(tail, env, indent, k)
+        r = self.simple(s, env)
+        if r is not None:
+            lines, env2 = r
+            head = self.flush(pad)
+            return head + "".join(pad + l + "\n" for l in lines) + self.block(tail, env2, indent, k)
+        if isinstance(s, ast.Assert):
+            c, tc = self.expr(s.test, env)
+            c = self.truth(c, tc)
+            head = self.flush(pad)
+            body = self.block(tail, env, indent + 1, k)
+            return "%s%sif %s then\n%s\n%selse %s" % (head, pad, c, body, pad, self.fail("AssertionError"))
+        if isinstance(s, ast.If):
+            nt = self.none_test(s.test, env)
+            if nt is not None:
+                x, inner, is_none = nt
+                head = self.flush(pad)
+                env2 = dict(env)
+                env2[x] = inner
+                on_none, on_some = (s.body, s.orelse) if is_none else (s.orelse, s.body)
+                a = self.block(list(on_none) + tail, dict(env), indent + 1, k)
+                b = self.block(list(on_some) + tail, env2, indent + 1, k)
+                return "%s%smatch %s with\n%s| none =>\n%s\n%s| some %s =>\n%s" % (head, pad, x, pad, a, pad, x, b)
+            c, tc = self.expr(s.test, env)
+            c = self.truth(c, tc)
+            head = self.flush(pad)
+            a = self.block(list(s.body) + tail, dict(env), indent + 1, k)
+            b = self.block(list(s.orelse) + tail, dict(env), indent + 1, k)
+            return "%s%sif %s then\n%s\n%selse\n%s" % (head, pad, c, a, pad, b)
+        if isinstance(s, ast.Return):
+            if k is not None:
+                raise Unsupported("return inside a loop")
+            return self.ret(s, env, pad)
+        if isinstance(s, ast.Raise):
+            return pad + self.raise_(s)
+        if isinstance(s, ast.Continue):
+            if k is None or k[0] != "yield":
+                raise Unsupported("continue outside a for loop")
+            return pad + k[1](env)
+        if isinstance(s, ast.Break):
+            if k is None or k[0] != "yield" or "py_broke" not in env:
+                raise Unsupported("break outside a for loop")
+            return "%slet py_broke : Bool := true\n%s%s" % (pad, pad, k[1](env))
+        if isinstance(s, ast.For):
+            return self.for_(s, tail, env, indent, k)
+        if isinstance(s, ast.While):
+            return self.while_(s, tail, env, indent, k)
+        if isinstance(s, ast.Try):
+            return self.try_(s, tail, env, indent, k)
+        raise Unsupported("statement %s" % type(s).__name__)
+
+    def fail(self, exc):
+        if self.pure_only:
+            raise NeedsMonad()
+        return "Except.error PyExc.%s" % exc
+
+    def raise_(self, s):
+        e = s.exc
+        if isinstance(e, ast.Call):
+            # the arguments are only a message: constants and formatted names
+            for a in e.args:
+                for x in ast.walk(a):
+                    if isinstance(x, (ast.Call, ast.Subscript, ast.BinOp)) and not (
+                            isinstance(x, ast.Call) and isinstance(x.func, ast.Attribute) and x.func.attr == "format"):
+                        raise Unsupported("raise with computed arguments")
+            e = e.func
+        if isinstance(e, ast.Name) and e.id in EXC_NAMES and s.cause is None:
+            return self.fail(e.id)
+        raise Unsupported("raise")
+
+    def ret(self, s, env, pad):
+        if s.value is None:
+            raise Unsupported("return without value")
+        t, ty = self.expr(s.value, env)
+        head = self.flush(pad)
+        self.rets.append(norm(ty))
+        its = "".join("\x01" + p for p in self.iter_params)
+        return "%s%s\x03RET%d\x01%s%s\x03" % (head, pad, len(self.rets) - 1, t, its)
+
+    # ---- loops
+    def loop_state(self, body_stmts, extra_nodes, env):
+        names = [n for n in assigned_names(body_stmts) if n in env]
+        names.sort(key=lambda n: (type_rank(env[n]), n))
+        for n in names:
+            if n in self.frozen:
+                raise Unsupported("assignment to %s" % n)
+        return names
+
+    def stable(self, names, env0, env1):
+        """the loop variables have the same types at the end of an iteration as at its start"""
+        for n in names:
+            if not unify(norm(env0[n]), norm(env1[n])):
+                raise Unsupported("loop variable %s changes its type (%s, %s)" % (
+                    n, render(env0[n]), render(env1[n])))
+        return True
+
+    def state_tuple(self, names):
+        return names[0] if len(names) == 1 else "(" + ", ".join(names) + ")"
+
+    def state_type(self, names, env):
+        return render(env[names[0]]) if len(names) == 1 else render(Tup(*[env[n] for n in names]))
+
+    def unpack(self, st, names, env, pad):
+        if len(names) == 1:
+            return ""
+        return "".join("%slet %s : %s := %s\n" % (pad, n, render(env[n]), proj(st, i, len(names)))
+                       for i, n in enumerate(names))
+
+    def check_no_escape(self, s, allow_break=False):
+        for x in ast.walk(s):
+            if isinstance(x, ast.Return) or (isinstance(x, ast.Break) and not allow_break):
+                raise Unsupported("%s inside a loop" % type(x).__name__.lower())
+            if x is not s and isinstance(x, (ast.For, ast.While)) and allow_break \
+                    and any(isinstance(y, ast.Break) for y in ast.walk(x)):
+                raise Unsupported("break inside a nested loop")
+        if s.orelse:
+            raise Unsupported("loop else")
+
+    def iterable(self, it, env):
+        """-> (lean list text, element type)"""
+        if isinstance(it, ast.Call) and isinstance(it.func, ast.Name) and it.func.id not in env \
+                and not it.keywords:
+            f = it.func.id
+            if f == "reversed" and len(it.args) == 1:
+                t, ty = self.iterable(it.args[0], env)
+                return "(List.reverse %s)" % t, ty
+            if f == "enumerate" and len(it.args) == 1:
+                t, ty = self.iterable(it.args[0], env)
+                return "(PyRt.enumerate %s)" % t, Tup(NAT, ty)
+            if f == "range" and len(it.args) == 1:
+                t, ty = self.expr(it.args[0], env)
+                ty = norm(ty)
+                if ty == NAT:
+                    return "(List.range %s)" % t, NAT
+                if ty == INT:   # range(n) is empty for n <= 0, and so is List.range (Int.toNat n)
+                    return "(List.range (Int.toNat %s))" % t, NAT
+            raise Unsupported("iterable %s(...)" % f)
+        t, ty = self.expr(it, env)
+        ty = norm(ty)
+        if isinstance(ty, tuple) and ty[0] == "List":
+            return t, ty[1]
+        if ty == STR:
+            raise Unsupported("iteration over a str")
+        raise Unsupported("iteration over %s" % render(ty))
+
+    def for_(self, s, tail, env, indent, k):
+        self.check_no_escape(s, allow_break=True)
+        pad = "  " * indent
+        lst, elem = self.iterable(s.iter, env)
+        head = self.flush(pad)
+        names = self.loop_state(s.body, [], env)
+        if not names:
+            raise Unsupported("for loop without state")
+        # `break`: a flag joins the state; once it is set the remaining iterations do nothing
+        has_break = any(isinstance(x, ast.Break) for x in ast.walk(s))
+        if has_break:
+            if "py_broke" in env:
+                raise Unsupported("break inside a nested loop")
+            env = dict(env)
+            env["py_broke"] = BOOL
+            names = ["py_broke"] + names
+            head += "%slet py_broke : Bool := false\n" % pad
+        self.nloop += 1
+        x = "x_%d" % self.nloop
+        st = "st_%d" % self.nloop
+        env2 = dict(env)
+        pad2 = "  " * (indent + 2)
+        target_lines = ""
+        tg = s.target
+        elem = norm(elem)
+        if isinstance(tg, ast.Name):
+            x = tg.id if tg.id != "_" else x
+            if tg.id in env:
+                raise Unsupported("loop variable shadows %s" % tg.id)
+            env2[tg.id] = elem
+        elif isinstance(tg, ast.Tuple) and all(isinstance(y, ast.Name) for y in tg.elts) \
+                and isinstance(elem, tuple) and elem[0] == "Tuple" and len(elem) - 1 == len(tg.elts):
+            for i, y in enumerate(tg.elts):
+                if y.id in env:
+                    raise Unsupported("loop variable shadows %s" % y.id)
+                env2[y.id] = elem[1 + i]
+                target_lines += "%slet %s : %s := %s\n" % (pad2, y.id, render(elem[1 + i]), proj(x, i, len(tg.elts)))
+        else:
+            raise Unsupported("loop target")
+        sname = names[0] if len(names) == 1 else st
+        sty = self.state_type(names, env)
+
+        def attempt(pure):
+            saved = (self.pure_only, self.ntmp, self.nloop, list(self.aux), list(self.rets))
+            self.pure_only = self.pure_only or pure
+            try:
+                y = (lambda e: self.stable(names, env2, e) and self.state_tuple(names)) if pure else \
+                    (lambda e: self.stable(names, env2, e) and "Except.ok %s" % self.state_tuple(names))
+                if has_break:
+                    return "%sif py_broke then\n%s  %s\n%selse\n%s" % (
+                        pad2, pad2, y(env2), pad2, self.block(s.body, env2, indent + 3, ("yield", y)))
+                return self.block(s.body, env2, indent + 2, ("yield", y))
+            except NeedsMonad:
+                self.pure_only, self.ntmp, self.nloop, self.aux, self.rets = saved
+                raise
+            finally:
+                self.pure_only = saved[0]
+        try:
+            body = attempt(True)
+            pure = True
+        except NeedsMonad:
+            if self.pure_only:
+                raise
+            body = attempt(False)
+            pure = False
+        un = self.unpack(st, names, env, pad2)
+        init = self.state_tuple(names)
+        if pure:
+            text = "%s%slet %s : %s := List.foldl (fun (%s : %s) (%s : %s) =>\n%s%s%s\n%s    ) %s %s\n" % (
+                head, pad, sname, sty, sname, sty, x, render(elem), un, target_lines, body, pad, init, lst)
+        else:
+            text = "%s%slet %s : %s ← List.foldlM (m := Py) (fun (%s : %s) (%s : %s) => do\n%s%s%s\n%s    ) %s %s\n" % (
+                head, pad, sname, sty, sname, sty, x, render(elem), un, target_lines, body, pad, init, lst)
+        text += self.unpack(st, names, env, pad)
+        return text + self.block(tail, env, indent, k)
+
+    def find_measure(self, s, names, env):
+        """(variable, divisor node) of a loop `while v…:` whose body divides v exactly once"""
+        t = s.test
+        v = None
+        if isinstance(t, ast.Name):
+            v = t.id
+        elif isinstance(t, ast.Compare) and len(t.ops) == 1 and isinstance(t.comparators[0], ast.Constant) \
+                and t.comparators[0].value == 0 and isinstance(t.left, ast.Name) \
+                and isinstance(t.ops[0], (ast.NotEq, ast.Gt)):
+            v = t.left.id
+        elif isinstance(t, ast.Compare) and len(t.ops) == 1 and isinstance(t.left, ast.Constant) \
+                and t.left.value == 0 and isinstance(t.comparators[0], ast.Name) \
+                and isinstance(t.ops[0], (ast.NotEq, ast.Lt)):
+            v = t.comparators[0].id
+        if v is None or v not in names or norm(env[v]) != INT:
+            raise Unsupported("while loop: no decreasing measure recognised (test)")
+        writes = [x for st in s.body for x in ast.walk(st)
+                  if isinstance(x, ast.Name) and x.id == v and isinstance(x.ctx, ast.Store)]
+        if len(writes) != 1:
+            raise Unsupported("while loop: %s is assigned %d times in the body" % (v, len(writes)))
+        div = None
+        for st in s.body:   # top level of the body only: executed in every iteration
+            if isinstance(st, ast.AugAssign) and isinstance(st.target, ast.Name) and st.target.id == v \
+                    and isinstance(st.op, ast.FloorDiv):
+                div = st.value
+            elif isinstance(st, ast.Assign) and len(st.targets) == 1:
+                tg, val = st.targets[0], st.value
+                if isinstance(tg, ast.Name) and tg.id == v and isinstance(val, ast.BinOp) \
+                        and isinstance(val.op, ast.FloorDiv) and isinstance(val.left, ast.Name) and val.left.id == v:
+                    div = val.right
+                elif isinstance(tg, ast.Tuple) and tg.elts and isinstance(tg.elts[0], ast.Name) and tg.elts[0].id == v \
+                        and isinstance(val, ast.Call) and isinstance(val.func, ast.Name) and val.func.id == "divmod" \
+                        and len(val.args) == 2 and isinstance(val.args[0], ast.Name) and val.args[0].id == v:
+                    div = val.args[1]
+        if div is None:
+            raise Unsupported("while loop: no decreasing measure recognised (body)")
+        if isinstance(div, ast.Name) and div.id not in names and div.id in env:
+            return v, div.id
+        if isinstance(div, ast.Constant) and isinstance(div.value, int) and div.value >= 2:
+            return v, str(div.value)
+        raise Unsupported("while loop: divisor is not loop invariant")
+
+    def while_(self, s, tail, env, indent, k):
+        self.check_no_escape(s)
+        for x in ast.walk(s):
+            if isinstance(x, ast.Continue):
+                raise Unsupported("continue inside a while loop")
+        if self.pure_only:
+            raise NeedsMonad()
+        pad = "  " * indent
+        names = self.loop_state(s.body, [s.test], env)
+        v, divisor = self.find_measure(s, names, env)
+        self.nloop += 1
+        aux = "%s_while%d" % (self.fname, self.nloop)
+        st = "st_%d" % self.nloop
+        used = used_names([s.test] + list(s.body))
+        caps = [n for n in env if n in used and n not in names]
+        for g, ty in self.spec.get("globals", []):
+            if g in used and (g, ty) not in self.globals_used:
+                self.globals_used.append((g, ty))
+        caps = [g for g, _ in self.globals_used if g in used and g not in caps] + caps
+        capenv = dict(env)
+        for g, ty in self.globals_used:
+            capenv.setdefault(g, ty)
+        sname = names[0] if len(names) == 1 else st
+        sty = self.state_type(names, env)
+        c, tc = self.expr(s.test, env)
+        c = self.truth(c, tc)
+        if self.pending:
+            raise Unsupported("effect in a while test")
+        call = "%s %s" % (aux, " ".join(caps + ["py_fuel"]))
+        outer_frozen = self.frozen
+        self.frozen = self.frozen | set(caps)
+        body = self.block(s.body, dict(env), 3, ("yield", lambda e: self.stable(names, env, e)
+                                                 and "%s %s" % (call, self.state_tuple(names))))
+        self.frozen = outer_frozen
+        doc = ("/-- `while` loop #%d of `%s` (line %d).  State: %s; read only: %s.\n"
+               "    Fuel: `%s` is only changed by a floor division by `%s`, once per iteration, and the loop\n"
+               "    runs while `%s` is non-zero.  For `%s ≥ 2` and `%s > 0` the quotient is smaller, so at\n"
+               "    most `%s` iterations happen and `%s.toNat + 1` units of fuel (one per test) suffice;\n"
+               "    if `%s < 2` the Python loop raises ZeroDivisionError or does not terminate, the latter\n"
+               "    shows up as `.error .NonTermination`.  (Proved in Proofs/GenEq2.lean.) -/\n") % (
+            self.nloop, self.spec["name"], s.lineno, self.state_tuple(names), ", ".join(caps) or "—",
+            v, divisor, v, divisor, v, v, v, divisor)
+        params = "".join(" (%s : %s)" % (n, render(capenv[n])) for n in caps)
+        text = doc + "def %s%s : Nat → %s → Py %s\n  | 0, _ => Except.error PyExc.NonTermination\n" % (
+            aux, params, sty, sty)
+        text += "  | py_fuel + 1, %s => do\n" % sname
+        text += self.unpack(st, names, env, "    ")
+        text += "    if %s then\n%s\n    else\n      Except.ok %s\n" % (c, body, self.state_tuple(names))
+        self.aux.append(text)
+        out = "%slet %s : %s ← %s %s (Int.toNat %s + 1) %s\n" % (
+            pad, sname, sty, aux, " ".join(caps), v, self.state_tuple(names))
+        out = out.replace("  (Int", " (Int")
+        out += self.unpack(st, names, env, pad)
+        return out + self.block(tail, env, indent, k)
+
+    def try_(self, s, tail, env, indent, k):
+        """`try: S1; S2… except E: H`.  Only S1 may raise (S2… must be effect free), and S1 has
+        exactly one raising operation, evaluated before S1 stores anything; so the handler runs
+        in the state of the entry of the `try`."""
+        pad = "  " * indent
+        pad1 = "  " * (indent + 1)
+        if s.orelse or s.finalbody or len(s.handlers) != 1 or getattr(s.handlers[0], "name", None):
+            raise Unsupported("try form")
+        h = s.handlers[0]
+        if not (isinstance(h.type, ast.Name) and h.type.id in EXC_NAMES):
+            raise Unsupported("except clause")
+        if self.pure_only:
+            raise NeedsMonad()
+        if self.pending:
+            raise Unsupported("internal: pending effects before try")
+        first, rest = s.body[0], list(s.body[1:])
+        if isinstance(first, ast.Return):
+            if k is not None:
+                raise Unsupported("return inside a loop")
+            if rest or first.value is None:
+                raise Unsupported("try body: return form")
+            pend, (t, ty) = self.isolated(lambda: self.expr(first.value, env))
+            self.rets.append(norm(ty))
+            its = "".join("\x01" + p for p in self.iter_params)
+            ok_tail = "%s\x03RET%d\x01%s%s\x03" % (pad1, len(self.rets) - 1, t, its)
+        else:
+            pend, r = self.isolated(lambda: self.simple(first, env))
+            if r is None:
+                raise Unsupported("first statement of a try body")
+            lines, env_ok = r
+            body_rest = "".join(pad1 + l + "\n" for l in lines)
+            saved = self.pure_only
+            self.pure_only = True
+            try:
+                for st in rest:
+                    rr = self.simple(st, env_ok)
+                    if rr is None or self.pending:
+                        raise Unsupported("try body: statement %s after the first" % type(st).__name__)
+                    body_rest += "".join(pad1 + l + "\n" for l in rr[0])
+                    env_ok = rr[1]
+            except NeedsMonad:
+                raise Unsupported("only the first statement of a try body may raise")
+            finally:
+                self.pure_only = saved
+            ok_tail = body_rest + self.block(tail, env_ok, indent + 1, k)
+        binds = [p for p in pend if p[0] == "bind"]
+        if len(binds) != 1 or pend[0][0] != "bind":
+            raise Unsupported("try body whose first statement has %d raising operations" % len(binds))
+        lets = "".join("%slet %s : %s := %s\n" % (pad1, p[1], render(p[3]), p[2]) for p in pend[1:])
+        handler = self.block(list(h.body) + tail, dict(env), indent + 1, k)
+        return ("%smatch (%s : Py %s) with\n%s| Except.ok %s =>\n%s%s\n%s| Except.error PyExc.%s =>\n%s\n"
+                "%s| Except.error py_e => Except.error py_e") % (
+            pad, binds[0][2], render(binds[0][3]), pad, binds[0][1], lets, ok_tail, pad, h.type.id, handler, pad)
+
+    # ---- whole function
+    def translate(self, fn):
+        spec = self.spec
+        a = fn.args
+        names = [x.arg for x in a.args]
+        if spec.get("cls"):
+            if not names or names[0] != "self":
+                raise Unsupported("method without self")
+            names = names[1:]
+        if a.kwarg or a.kwonlyargs or a.defaults or a.posonlyargs:
+            raise Unsupported("signature")
+        if names != [p for p, _ in spec.get("params", [])]:
+            raise Unsupported("parameters %s (expected %s)" % (names, [p for p, _ in spec.get("params", [])]))
+        va = spec.get("vararg")
+        if (a.vararg.arg if a.vararg else None) != (va[0] if va else None):
+            raise Unsupported("vararg")
+        for d in fn.decorator_list:
+            if ast.unparse(d) not in ALLOWED_DECORATORS:
+                raise Unsupported("decorator %s" % ast.unparse(d))
+        for x in ast.walk(fn):
+            if isinstance(x, (ast.Global, ast.Nonlocal, ast.Lambda, ast.FunctionDef, ast.AsyncFunctionDef,
+                              ast.ClassDef, ast.Yield, ast.YieldFrom, ast.Await, ast.ListComp, ast.SetComp,
+                              ast.DictComp, ast.GeneratorExp, ast.NamedExpr, ast.Delete, ast.With,
+                              ast.Import, ast.ImportFrom)) and x is not fn:
+                raise Unsupported("construct %s" % type(x).__name__)
+        env = {}
+        for p, ty in spec.get("params", []):
+            env[p] = ty
+        if va:
+            env[va[0]] = va[1]
+        for at, ty in spec.get("self_attrs", []):
+            env["self_" + at] = ty
+        # writes to self.attr are outside the subset
+        for x in ast.walk(fn):
+            if isinstance(x, ast.Attribute) and not isinstance(x.ctx, ast.Load):
+                raise Unsupported("attribute assignment")
+        local = set(assigned_names(fn.body)) | set(env)
+        for g, _ in spec.get("globals", []):
+            if g in local:
+                raise Unsupported("global %s is rebound / mutated" % g)
+        for tname in CONSTANT_TABLES:
+            if tname in local:
+                raise Unsupported("table %s is rebound / mutated" % tname)
+        allnames = {x.id for x in ast.walk(fn) if isinstance(x, ast.Name)} | {x.arg for x in ast.walk(fn) if isinstance(x, ast.arg)}
+        # identifiers go into the Lean text unchanged: they must not be Lean keywords, must not
+        # shadow anything the translator emits, and must not look like the names it invents
+        import re as _re
+        for n in sorted(allnames & (set(env) | local)):   # variables, not called builtins
+            if n in LEAN_RESERVED or _re.match(r"^(st|x)_\d+$", n) or not _re.match(r"^[A-Za-z_][A-Za-z0-9_]*$", n):
+                raise Unsupported("identifier %s cannot be used in the Lean text" % n)
+        while any(n.startswith(self.prefix + "_") for n in allnames):
+            self.prefix += "t"
+        for bad in ("py_fuel", "py_next", "py_e", "py_broke"):
+            if bad in allnames:
+                raise Unsupported("reserved name %s" % bad)
+        self.frozen = frozenset()
+        self.nullable_lists = set()
+
+        def has_none(node):
+            return isinstance(node, ast.List) and any(
+                isinstance(y, ast.Constant) and y.value is None for y in node.elts)
+        for x in ast.walk(fn):
+            if isinstance(x, ast.Call) and isinstance(x.func, ast.Attribute) and x.func.attr == "append" \
+                    and isinstance(x.func.value, ast.Name) and len(x.args) == 1 \
+                    and isinstance(x.args[0], ast.Constant) and x.args[0].value is None:
+                self.nullable_lists.add(x.func.value.id)
+            if isinstance(x, ast.AugAssign) and isinstance(x.target, ast.Name) and has_none(x.value):
+                self.nullable_lists.add(x.target.id)
+            if isinstance(x, ast.Assign) and len(x.targets) == 1 and isinstance(x.targets[0], ast.Name) \
+                    and isinstance(x.value, ast.BinOp) and (has_none(x.value.left) or has_none(x.value.right)):
+                self.nullable_lists.add(x.targets[0].id)
+        body = self.block(fn.body, env, 1, None)
+        # return type: all equal, or Int/None -> Option Int
+        rts = self.rets
+        if not rts:
+            raise Unsupported("no return")
+        if all(unify(rts[0], t) for t in rts[1:]) and norm(rts[0]) != NONE:
+            rt = norm(rts[0])
+            conv = lambda t, ty: t
+        elif all(norm(t) in (INT, NAT, NONE, Opt(INT)) for t in rts):
+            rt = Opt(INT)
+            conv = self.to_opt_int
+        else:
+            raise Unsupported("returns of different types")
+        if rt == NAT:
+            rt = INT
+            conv = self.as_int
+        out = []
+        for piece in body.split("\x03"):
+            if piece.startswith("RET"):
+                parts = piece.split("\x01")
+                i = int(parts[0][3:])
+                val = conv(parts[1], rts[i])
+                if parts[2:]:
+                    val = "(%s, %s)" % (val, ", ".join(parts[2:]))
+                out.append("Except.ok %s" % val)
+            else:
+                out.append(piece)
+        body = "".join(out)
+        params = []
+        for g, ty in self.globals_used:
+            params.append("(%s : %s)" % (g, render(ty)))
+        for at, ty in spec.get("self_attrs", []):
+            params.append("(self_%s : %s)" % (at, render(ty)))
+        for p, ty in spec.get("params", []):
+            params.append("(%s : %s)" % (p, render(ty)))
+        if va:
+            params.append("(%s : %s)" % (va[0], render(va[1])))
+        full_rt = rt if not self.iter_params else Tup(rt, *[ITER] * len(self.iter_params))
+        pre = ""
+        if self.iter_params:
+            pre = "{ι : Type} (py_next : ι → Py (%s × ι)) " % render(ITER_ITEM)
+        sig = "%s%s : Py %s" % (pre, " ".join(params), render(full_rt))
+        text = "".join(a + "\n" for a in self.aux) + "def %s %s := do\n%s\n" % (self.fname, sig, body)
+        text = self.resolve_markers(text)   # element types of list literals
+        return text, dict(globals=list(self.globals_used), ret=rt, iter_params=list(self.iter_params),
+                          sig=self.resolve_markers(sig))
+
+    def resolve_markers(self, text):
+        import re as _re
+
+        def sub(m):
+            tv = TVAR_BY_ID.get(int(m.group(1)))
+            r = render(tv) if tv is not None else m.group(0)
+            if "\x02" in r:
+                raise Unsupported("element type of a list literal is never determined")
+            return r
+        return _re.sub("\x02T(\\d+)\x02", sub, text)
+
+
+TVAR_BY_ID = {}
+_old_tvar_init = TVar.__init__
+
+
+def _tvar_init(self):
+    _old_tvar_init(self)
+    TVAR_BY_ID[self.id] = self
+
+
+TVar.__init__ = _tvar_init
+
+
+def generate_pure(repo):
+    """-> ({file name: lean text}, {python name: info})"""
+    mods = {}
+    info = {}
+    registry = {}
+    chunks = {g: [] for g in GROUPS}
+    failed = {g: [] for g in GROUPS}
+    for spec in SPECS:
+        name = spec["name"]
+        key = (spec.get("cls") + "." + name) if spec.get("cls") else name
+        path = os.path.join(repo, spec["file"])
+        try:
+            if spec["file"] not in mods:
+                mods[spec["file"]] = ModuleInfo(path, MODULE_OF_FILE[spec["file"]])
+            mod = mods[spec["file"]]
+            if spec.get("cls"):
+                fn = mod.classes.get(spec["cls"], {}).get(name)
+            else:
+                fn = mod.defs.get(name)
+            if fn is None:
+                raise Unsupported("function not found")
+            tr = TrX(spec, mod, registry)
+            text, sig = tr.translate(fn)
+            registry[name] = (spec, sig)
+            doc = "/-- `%s` of %s (line %d), translated from the AST.%s -/\n" % (
+                key, spec["file"], fn.lineno,
+                " Decorators ignored: %s." % ", ".join(ast.unparse(d) for d in fn.decorator_list)
+                if fn.decorator_list else "")
+            text = text.replace("def %s " % lean_name(spec), doc + "def %s " % lean_name(spec), 1) \
+                if tr.aux else doc + text
+            chunks[spec["group"]].append(text)
+            info[key] = {"ok": True, "lean": "SV.Gen." + lean_name(spec), "file": spec["file"],
+                         "module": "SelfiesVerif.Generated." + spec["group"], "signature": sig["sig"],
+                         "ast": ast.dump(fn)}
+        except Exception as e:  # Unsupported, unreadable source, or a defect of the translator itself
+            if not isinstance(e, (Unsupported, OSError, SyntaxError)):
+                e = Unsupported("translator internal error: %r" % (e,))
+            fb_sig, fb_ret, fb_iter = FALLBACK_SIGS[lean_name(spec)]
+            registry[name] = (spec, dict(globals=list(spec.get("globals", [])) if lean_name(spec) != "Atom_bonding_capacity"
+                                         else [("_current_constraints", Dct(STR, NAT))],
+                                         ret=fb_ret, iter_params=fb_iter, sig=fb_sig))
+            args = " ".join(a for a in FALLBACK_ARGS[lean_name(spec)])
+            for aux, aux_sig, aux_args in FALLBACK_AUX.get(lean_name(spec), []):
+                chunks[spec["group"]].append("/- auxiliary definition of the fallback -/\ndef %s %s :=\n  SV.Gen.Fallback.%s %s\n" % (
+                    aux, aux_sig, aux, aux_args))
+            chunks[spec["group"]].append("/- translator fallback: %s -/\ndef %s %s :=\n  SV.Gen.Fallback.%s %s\n" % (
+                e, lean_name(spec), fb_sig, lean_name(spec), args))
+            failed[spec["group"]].append(key)
+            info[key] = {"ok": False, "reason": str(e), "lean": "SV.Gen." + lean_name(spec),
+                         "file": spec["file"], "module": "SelfiesVerif.Generated." + spec["group"]}
+    files = {}
+    for g, cfg in GROUPS.items():
+        srcs = sorted({s["file"] for s in SPECS if s["group"] == g})
+        L = ["/- GENERATED by harness/py2lean.py from %s. Do not edit. -/" % ", ".join(srcs),
+             "import SelfiesVerif.Py", "import SelfiesVerif.Generated.PyRt", "import SelfiesVerif.Generated.Fallback"]
+        L += ["import %s" % i for i in cfg["imports"]]
+        L += ["set_option linter.unusedVariables false", "namespace SV.Gen", "open SV", ""]
+        L += chunks[g]
+        L.append("def %s : List String := [%s]" % (cfg["fallbacks"], ", ".join('"%s"' % n for n in failed[g])))
+        L.append("end SV.Gen")
+        files[g + ".lean"] = "\n".join(L) + "\n"
+    return files, info
+
+
+# signatures of the hand copies in Generated/Fallback.lean
+FALLBACK_SIGS = {
+    "get_index_from_selfies": ("(symbols : (List (Option Str))) : Py Int", INT, []),
+    "get_selfies_from_index": ("(index : Int) : Py (List Str)", Lst(STR), []),
+    "get_bonding_capacity": ("(_current_constraints : (List (Str × Nat))) (element : Str) (charge : Int) : Py Int", INT, []),
+    "Atom_bonding_capacity": ("(_current_constraints : (List (Str × Nat))) (self_element : Str) (self_charge : Int) "
+                              "(self_h_count : (Option Int)) : Py Int", INT, []),
+    "read_index_from_selfies": ("{ι : Type} (py_next : ι → Py ((Nat × Str) × ι)) (symbol_iter : ι) (n_symbols : Int) "
+                                ": Py ((Int × Int) × ι)", Tup(INT, INT), ["symbol_iter"]),
+}
+# loop definitions that the proofs refer to by name (kept available under a fallback)
+FALLBACK_AUX = {
+    "get_selfies_from_index": [("get_selfies_from_index_while1",
+                                "(base : Nat) : Nat → (Int × (List Str)) → Py (Int × (List Str))", "base")],
+}
+FALLBACK_ARGS = {
+    "get_index_from_selfies": ["symbols"],
+    "get_selfies_from_index": ["index"],
+    "get_bonding_capacity": ["_current_constraints", "element", "charge"],
+    "Atom_bonding_capacity": ["_current_constraints", "self_element", "self_charge", "self_h_count"],
+    "read_index_from_selfies": ["py_next", "symbol_iter", "n_symbols"],
+}
